@@ -25,9 +25,9 @@ theorem ascii_asString (l : List UInt8) : ascii (asString l) = l := by
     simp [Char.ofNatAux, Char.toNat]
   rw [this]; exact UInt8.ofNat_toNat
 
-/-- `pin`: prove `TAG = ascii "literal"` by comparing `asString TAG` with the literal (cheap for the
+/-- `c17_pin`: prove `TAG = ascii "literal"` by comparing `asString TAG` with the literal (cheap for the
     kernel: no UTF-8 decoding of the literal) -/
-macro "pin" : tactic =>
+macro "c17_pin" : tactic =>
   `(tactic| (refine Eq.trans (ascii_asString _).symm (congrArg ascii ?_); rfl))
 
 /-! ### truncate -/
